@@ -14,12 +14,18 @@ Theorem C01_val_implies_ana_partial : forall x, WellFormedMath x -> val_math x =
 Proof. exact MathWF.val_implies_ana_partial. Qed.
 Print Assumptions C01_val_implies_ana_partial.
 
+(** the same whether or not the repair of the arity table (fixes/C01-mathml-arity.diff) is in the tree *)
+Theorem C01_val_implies_ana_partial_gen : forall fx x, WellFormedMath x ->
+  val_math_env_gen fx std_vars std_units x = [] /\ ana x <> None.
+Proof. exact MathWF.val_implies_ana_partial_gen. Qed.
+Print Assumptions C01_val_implies_ana_partial_gen.
+
 Example C01_wellformed_nonvacuous : exists x, WellFormedMath x /\ val_math x = [] /\ ana x <> None.
 Proof. eexists. split; [exact MathWF.wf_example|]. apply MathWF.val_implies_ana_partial. exact MathWF.wf_example. Qed.
 Print Assumptions C01_wellformed_nonvacuous.
 
 (** ... and does NOT hold in general: documents the validator's three tree passes accept without an issue, on which
-    the analyser dereferences null.  The first four are the suspects of DESIGN.md section 5 row 33; the others were found
+    the analyser dereferences null ([gap] is stated over the code as it is now, fx = false).  The first four are the suspects of DESIGN.md section 5 row 33; the others were found
     by enumerating small trees in the model.  Each is replayed on the real library by checks/c01.py (family K33). *)
 Theorem C01_val_implies_ana_refuted :
   (* no arity rule for min / max / rem *)
@@ -47,13 +53,22 @@ Proof.
 Qed.
 Print Assumptions C01_val_implies_ana_refuted.
 
-Theorem C01_gap_refutes_contract : forall root s, gap root s -> val_math root = [] /\ ana root = None.
+Theorem C01_gap_refutes_contract : forall root s, gap root s -> val_now root = [] /\ ana root = None.
 Proof. exact MathProofs.gap_is_refutation. Qed.
 Print Assumptions C01_gap_refutes_contract.
 
+(** The proposed repair (arity rules for min / max as for times, for rem as for divide) closes the witnesses about those
+    elements: with it the validator model rejects them.  (A rule "piecewise needs a child" would contradict the pinned
+    test Validator.invalidMathMLElementsChildrenOrSiblings, so the empty piecewise stays a finding.) *)
+Theorem C01_arity_fix_closes :
+  val_fixed w_min_no_operand <> [] /\ val_fixed w_max_no_operand <> [] /\ val_fixed w_rem_no_operand <> []
+  /\ val_fixed w_min_one_operand <> [] /\ val_fixed w_not_equation_min <> [].
+Proof. exact MathProofs.arity_fix_closes. Qed.
+Print Assumptions C01_arity_fix_closes.
+
 (** The validator's own passes are null-safe on every tree: each mathmlChildNode(...)-> it performs is preceded by
     the count test that makes the child exist. *)
-Theorem C01_val_null_safe : forall vars units root, ~ In V_NULL_DEREF (val_math_env vars units root).
+Theorem C01_val_null_safe : forall fx vars units root, ~ In V_NULL_DEREF (val_math_env_gen fx vars units root).
 Proof. exact MathProofs.val_null_safe. Qed.
 Print Assumptions C01_val_null_safe.
 
@@ -76,10 +91,10 @@ Print Assumptions C01_stod_real_partial.
     the exception leaves Analyser::analyseModel (family K-stod). *)
 Theorem C01_stod_unguarded_refuted :
   (initial_value_accepted std_vars "y" = true /\ stod "y" = StodInvalidArgument
-   /\ val_math w_pow_iv_name = [] /\ pow_math_env std_vars [("z", "y")] w_pow_iv_name = Some StodInvalidArgument)
+   /\ val_now w_pow_iv_name = [] /\ pow_math_env std_vars [("z", "y")] w_pow_iv_name = Some StodInvalidArgument)
   /\ (initial_value_accepted std_vars "1e400" = true /\ stod "1e400" = StodOutOfRange
       /\ pow_math_env std_vars [("z", "1e400")] w_pow_iv_name = Some StodOutOfRange)
-  /\ (val_math w_pow_cn_range = [] /\ pow_math_env std_vars [] w_pow_cn_range = Some StodOutOfRange).
+  /\ (val_now w_pow_cn_range = [] /\ pow_math_env std_vars [] w_pow_cn_range = Some StodOutOfRange).
 Proof. exact MathProofs.stod_unguarded_refuted. Qed.
 Print Assumptions C01_stod_unguarded_refuted.
 
